@@ -15,7 +15,8 @@ consumer entities).  Drivers:
 * ``group``    ConsumerGroup: every join/leave order of <= 3 members (quick: membership toggles, <= 6 ops;
                thorough: toggles <= 7 ops and, incl. redundant joins / leaves, <= 5 ops) x 3 strategies x
                partitions {1..4} x rebalance delay {shorter, longer than a tick}.
-* ``commit``   ConsumerGroup commit sequences incl. stale commits, interleaved with rebalances.
+* ``commit``   ConsumerGroup commit sequences incl. stale and late (non-owner) commits and polls, interleaved
+               with rebalances incl. ownership round trips (a partition returning to a former owner).
 * ``outbox`` / ``idem`` / ``stream`` (thorough): OutboxRelay, IdempotencyStore, StreamProcessor.
 """
 from __future__ import annotations
@@ -39,7 +40,7 @@ RULE = (
     "topic = publishes overlapped, followed an unsubscribe / re-subscribe, or a subscription changed during a fan-out; eventlog = a retention sweep expired "
     "records or two appends overlapped; group = a membership change arrived while another rebalance was pending, "
     "a member re-joined, or >= 2 members were in the group; commit = a commit lower than an earlier one of that "
-    "member was issued; outbox = an entry was written while earlier entries were still pending; idem = a key was "
+    "member was issued, a member committed for a partition it did not own, or a partition returned to a former owner; outbox = an entry was written while earlier entries were still pending; idem = a key was "
     "used twice; stream = a window held >= 2 records.  states = distinct observation digests (what consumers received, with times, plus public counters)."
 )
 ASSUMPTIONS = [
@@ -55,7 +56,12 @@ ASSUMPTIONS = [
     "after more than max_redeliveries deliveries must; exactly max_redeliveries is accepted either way (the "
     "docstring and the code disagree on that off-by-one and the statement does not settle it)",
     "uuid.uuid4 is pinned to a counter; no component under test reads the wall clock or the random module",
-    "committed offsets are observed per (member, partition) through consumer_lag() = high watermark - committed",
+    "committed offsets are observed per (member, partition) through consumer_lag() = high watermark - committed, "
+    "over the whole sequence incl. after a partition returned to a former owner; besides never decreasing between "
+    "observations, the value must never be below the highest offset that member committed for that partition "
+    "(a commit issued while the member did not own the partition counts only if a calibration probe through the "
+    "public API shows that the library applies such commits), and poll() must not hand a member a record below "
+    "that offset",
 ]
 
 
